@@ -278,8 +278,13 @@ func fmtErrorMessageLine(code int, errName string, errMessage string) string {
 }
 
 func calcCursorOffset(text string, col int) int {
+	// the cursor may lie inside the indentation that was stripped from the quoted line (col < 0):
+	// the caret then goes under the first quoted character (a negative offset crashed strings.Repeat)
 	if col < 0 {
-		return col
+		return 0
+	}
+	if n := len([]rune(text)); col > n {
+		col = n
 	}
 	widthBorders := []int32{
 		126, 159, 687, 710, 711, 727, 733, 879, 1154, 1161,
